@@ -13,7 +13,7 @@ import (
 
 func init() {
 	props["C02"] = &propCheck{
-		lean:    []string{"JSight.Props.C02", "JSight.Props.C08_Include"},
+		lean:    []string{"JSight.Props.C02", "JSight.Props.C02_Located", "JSight.Props.C08_Include"},
 		exes:    []string{"jsight-model"},
 		run:     runC02,
 		rule:    "location arithmetic: all contents over {a,space,LF,CR} up to the length bound, every index 0..len+2, plus random longer contents (LF, CR, CRLF, mixed); non-trivial = content with >= 2 lines and index > 0; pipeline: rejected generated documents with the fault not at index 0",
